@@ -11,7 +11,6 @@ import (
 
 	sdkmath "cosmossdk.io/math"
 
-	cctp "github.com/circlefin/noble-cctp/x/cctp"
 	"github.com/circlefin/noble-cctp/x/cctp/types"
 )
 
@@ -148,16 +147,23 @@ func cmdGenesis(tab *SymTab, rd *os.File, bw *bufio.Writer) {
 		gs := inst.GenesisFromAbstract(g)
 		obs := M{"exported": 0, "state": 0, "export": "na"}
 		var verr error
-		obs["validate"] = guard(func() { verr = gs.Validate() })
+		js, viaJSON := inst.genesisJSON(&gs)
+		obs["validate"] = guard(func() {
+			if viaJSON {
+				verr = inst.Mod.ValidateGenesis(inst.cdc, nil, js)
+			} else {
+				verr = gs.Validate()
+			}
+		})
 		if obs["validate"] == "ok" && verr != nil {
 			obs["validate"] = "err"
 		}
-		obs["init"] = guard(func() { cctp.InitGenesis(inst.ctx, inst.K, gs) })
+		obs["init"] = guard(func() { inst.InitGenesisReal(gs) })
 		if obs["init"] == "ok" {
 			st, junk := inst.ProjectState()
 			obs["state"], obs["junk"] = st, toAny(junk)
 			var exp *types.GenesisState
-			obs["export"] = guard(func() { exp = cctp.ExportGenesis(inst.ctx, inst.K) })
+			obs["export"] = guard(func() { exp = inst.ExportGenesisReal() })
 			if exp != nil {
 				obs["exported"] = inst.ProjectGenesis(exp)
 			}
@@ -175,12 +181,15 @@ func (in *Instance) Reimport() M {
 	before, _ := in.ProjectState()
 	rawA := in.RawDump()
 	var exp *types.GenesisState
-	out := M{"state": before, "export": guard(func() { exp = cctp.ExportGenesis(in.ctx, in.K) })}
+	out := M{"state": before, "export": guard(func() { exp = in.ExportGenesisReal() })}
 	if exp == nil {
 		return out
 	}
 	out["validate"] = "ok"
 	if exp.Validate() != nil {
+		out["validate"] = "err"
+	}
+	if js, err := in.cdc.MarshalJSON(exp); err == nil && in.Mod.ValidateGenesis(in.cdc, nil, js) != nil {
 		out["validate"] = "err"
 	}
 	// through JSON, as a chain export/import does
@@ -195,7 +204,8 @@ func (in *Instance) Reimport() M {
 		return out
 	}
 	fresh := NewInstance(in.T, false)
-	out["init"] = guard(func() { cctp.InitGenesis(fresh.ctx, fresh.K, back) })
+	out["init"] = guard(func() { fresh.Mod.InitGenesis(fresh.ctx, fresh.cdc, bz) })
+	_ = back
 	// the ledger is not part of the module's genesis: carry it over so that projections are comparable
 	for k, v := range in.LedgerDump() {
 		setBig(fresh.ctx.KVStore(fresh.ledKey), []byte(k), v)
